@@ -348,9 +348,55 @@ class Program:
         return {self.relpath(m): m.sha256 for m in self.modules.values()}
 
 
-def norm_stmt(node) -> str:
-    """Normalised statement text used to key findings (never line numbers)."""
+_LOCALS_CACHE = {}
+
+
+def local_names_of(fn) -> frozenset:
+    """Names bound inside the function other than its parameters (their spelling is not behaviour)."""
+    if fn is None or getattr(fn, "node", None) is None:
+        return frozenset()
+    k = id(fn.node)
+    if k not in _LOCALS_CACHE:
+        a = fn.node.args
+        params = {x.arg for x in a.posonlyargs + a.args + a.kwonlyargs}
+        names = set()
+        for n in ast.walk(fn.node):
+            if isinstance(n, ast.Name) and isinstance(n.ctx, (ast.Store, ast.Del)) and n.id not in params:
+                names.add(n.id)
+        _LOCALS_CACHE[k] = frozenset(names)
+    return _LOCALS_CACHE[k]
+
+
+_NORM_CACHE = {}
+
+
+def norm_stmt(node, fn=None) -> str:
+    """Normalised statement text used to key findings (never line numbers).  With `fn`, local variable names are
+    replaced by positional placeholders so that renaming a local does not change the key."""
+    k = (id(node), id(getattr(fn, "node", None)))
+    if isinstance(node, ast.AST) and k in _NORM_CACHE and _NORM_CACHE[k][0] is node:
+        return _NORM_CACHE[k][1]
+    s = _norm_stmt(node, fn)
+    if isinstance(node, ast.AST):
+        _NORM_CACHE[k] = (node, s)
+    return s
+
+
+def _norm_stmt(node, fn=None) -> str:
     try:
+        if fn is not None and isinstance(node, ast.AST):
+            loc = local_names_of(fn)
+            if loc:
+                import copy
+                node = copy.deepcopy(node)
+                order = {}
+                for n in ast.walk(node):
+                    if isinstance(n, ast.Name) and n.id in loc:
+                        if n.id not in order:
+                            order[n.id] = "L%d" % (len(order) + 1)
+                for n in ast.walk(node):
+                    if isinstance(n, ast.Name) and n.id in order:
+                        n.id = order[n.id]
         s = ast.unparse(node)
     except Exception:
         s = type(node).__name__
